@@ -82,6 +82,9 @@ THEOREMS = [
     "VK.reRS_restrict",
     "VK.finalistStage_re",
     "VK.C08_toptwo_cand_order",
+    "VK.stvStep_mentions",
+    "VK.stvRun_mentions",
+    "VK.C08_alaska_cand_order",
 ]
 RULE = ("cases = deterministic configuration of every ranking / scoring / pairwise rule (as in C10) on a random profile; "
         "five transformations of the input: rename the candidates by a random bijection into a second name pool (sort "
